@@ -38,9 +38,19 @@ pub enum Cap {
     NoisyDebug,
     NoisySerde,
     NoisySval,
+    /// values whose formatting fails part-way: some output, then an error
+    FailDefault,
+    FailDisplay,
+    FailDebug,
+    FailSerde,
+    FailSval,
 }
 
 impl Cap {
+    pub fn is_failing(self) -> bool {
+        matches!(self, Cap::FailDefault | Cap::FailDisplay | Cap::FailDebug | Cap::FailSerde | Cap::FailSval)
+    }
+
     pub fn is_noisy(self) -> bool {
         matches!(self, Cap::NoisyDisplay | Cap::NoisyDebug | Cap::NoisySerde | Cap::NoisySval)
     }
@@ -63,6 +73,11 @@ impl Cap {
             Cap::NoisyDebug => "noisy-debug",
             Cap::NoisySerde => "noisy-serde",
             Cap::NoisySval => "noisy-sval",
+            Cap::FailDefault => "fail-default",
+            Cap::FailDisplay => "fail-display",
+            Cap::FailDebug => "fail-debug",
+            Cap::FailSerde => "fail-serde",
+            Cap::FailSval => "fail-sval",
         }
     }
 }
@@ -108,6 +123,7 @@ pub struct ModelEvent {
 
 pub enum Store {
     None,
+    Failing(FailingVal),
     Noisy(NoisyVal),
     Owned(OwnedValue),
     Level(emit::Level),
@@ -127,6 +143,7 @@ impl Prop {
             _ => "",
         };
         match self.cap {
+            c if c.is_failing() => Store::Failing(FailingVal),
             Cap::OwnedSerde => Store::Owned(Value::from_serde(&self.model).to_owned()),
             Cap::SharedSval => Store::Owned(Value::from_sval(&self.model).to_shared()),
             Cap::Level => Store::Level(text.parse().expect("level text")),
@@ -139,6 +156,12 @@ impl Prop {
 
     pub fn value<'a>(&'a self, store: &'a Store) -> Value<'a> {
         match (self.cap, store) {
+            (Cap::FailDefault, Store::Failing(f)) => Value::capture_display(f),
+            (Cap::FailDisplay, Store::Failing(f)) => Value::from_display(f),
+            (Cap::FailDebug, Store::Failing(f)) => Value::from_debug(f),
+            (Cap::FailSerde, Store::Failing(f)) => Value::from_serde(f),
+            (Cap::FailSval, Store::Failing(f)) => Value::from_sval(f),
+            (_, Store::Failing(_)) => Value::null(),
             (Cap::NoisyDisplay, Store::Noisy(nv)) => Value::from_display(nv),
             (Cap::NoisyDebug, Store::Noisy(nv)) => Value::from_debug(nv),
             (Cap::NoisySerde, Store::Noisy(nv)) => Value::from_serde(nv),
@@ -197,6 +220,9 @@ impl Prop {
     }
 
     pub fn json_image(&self) -> Result<JsonImage, String> {
+        if self.cap.is_failing() {
+            return Err("failing-value".into());
+        }
         if self.structural() {
             self.model.json_image(Framework::Sval)
         } else {
@@ -205,6 +231,9 @@ impl Prop {
     }
 
     pub fn any_image(&self) -> Result<AnyImage, String> {
+        if self.cap.is_failing() {
+            return Err("failing-value".into());
+        }
         if self.structural() {
             self.model.any_image()
         } else {
@@ -214,7 +243,7 @@ impl Prop {
 
     /// Key shapes of maps that neither JSON nor OTLP can carry (compound keys), from the model.
     pub fn compound_key_shapes(&self) -> Vec<&'static str> {
-        if !self.structural() {
+        if !self.structural() || self.cap.is_failing() {
             return Vec::new();
         }
         self.model.map_key_shapes().into_iter().filter(|s| COMPOUND_SHAPES.contains(s)).collect()
@@ -1123,4 +1152,106 @@ pub fn add_noisy(g: &mut Rng, me: &mut ModelEvent) {
         me.parts.push((false, " saw ".into()));
         me.parts.push((true, "noisy".into()));
     }
+}
+
+// ---------------------------------------------------------------------------
+// values whose formatting fails part-way
+// ---------------------------------------------------------------------------
+
+pub const FAIL_PARTIAL: &str = "partial-output-before-the-error";
+
+/// Writes some output, then fails: `Display` / `Debug` return `Err` after writing text, `Serialize` /
+/// `sval::Value` error after emitting part of a sequence.
+pub struct FailingVal;
+
+impl std::fmt::Display for FailingVal {
+    fn fmt(&self, f: &mut std::fmt::Formatter) -> std::fmt::Result {
+        f.write_str(FAIL_PARTIAL)?;
+        Err(std::fmt::Error)
+    }
+}
+
+impl std::fmt::Debug for FailingVal {
+    fn fmt(&self, f: &mut std::fmt::Formatter) -> std::fmt::Result {
+        f.write_str(FAIL_PARTIAL)?;
+        Err(std::fmt::Error)
+    }
+}
+
+impl serde::Serialize for FailingVal {
+    fn serialize<S: serde::Serializer>(&self, s: S) -> Result<S::Ok, S::Error> {
+        use serde::ser::SerializeSeq;
+        let mut q = s.serialize_seq(Some(3))?;
+        q.serialize_element(FAIL_PARTIAL)?;
+        Err(serde::ser::Error::custom("serialization fails part-way"))
+    }
+}
+
+impl sval::Value for FailingVal {
+    fn stream<'sval, S: sval::Stream<'sval> + ?Sized>(&'sval self, stream: &mut S) -> sval::Result {
+        stream.seq_begin(Some(3))?;
+        stream.seq_value_begin()?;
+        stream.value(FAIL_PARTIAL)?;
+        stream.seq_value_end()?;
+        sval::error()
+    }
+}
+
+impl ModelEvent {
+    pub fn failing_prop(&self) -> Option<&Prop> {
+        self.props.iter().find(|p| p.cap.is_failing())
+    }
+
+    /// Is the failing value bound to a template hole (so rendering the message fails)?
+    pub fn failing_hole(&self) -> bool {
+        self.parts.iter().any(|(hole, k)| *hole && self.props.iter().any(|p| p.cap.is_failing() && &p.key == k))
+    }
+}
+
+/// The section of part-way failing values: three ordinary events, then one whose property `bad`
+/// fails to format — as the 1st / a middle / the last property, on every kind, every fifth time
+/// also bound to a template hole.
+pub fn gen_failing_section_event(g: &mut Rng, seed: u64, section: &str, idx: u64) -> ModelEvent {
+    let mut me = gen_event(g, seed, section, idx, false);
+    if idx % 4 != 3 {
+        return me;
+    }
+    let k = idx / 4;
+    let cap = [Cap::FailDefault, Cap::FailDisplay, Cap::FailDebug, Cap::FailSerde, Cap::FailSval][(k % 5) as usize];
+    me.kind = [Kind::Log, Kind::Span, Kind::Metric][((k / 5) % 3) as usize];
+    // a clean event of that kind with a unique, findable timestamp
+    let end = BASE_NANOS + idx * 1_000_003 + 7;
+    me.props.retain(|p| !["evt_kind", "metric_value", "metric_agg", "metric_name", "metric_unit", "err", "span_name"].contains(&p.key.as_str()));
+    match me.kind {
+        Kind::Log => me.extent = Some((None, end)),
+        Kind::Span => {
+            me.extent = Some((Some(end - 1_000), end));
+            me.props.push(Prop::new("evt_kind", M::Str("span".into()), Cap::Kind));
+        }
+        Kind::Metric => {
+            me.extent = Some((None, end));
+            me.props.push(Prop::new("evt_kind", M::Str("metric".into()), Cap::Kind));
+            me.props.push(Prop::new("metric_name", M::Str("failing".into()), Cap::Typed));
+            me.props.push(Prop::new("metric_agg", M::Str("count".into()), Cap::Typed));
+            me.props.push(Prop::new("metric_value", M::I64(3), Cap::Typed));
+        }
+    }
+    me.props.retain(|p| p.key != "bad");
+    me.props.push(Prop::new("tail_marker", M::I64(1), Cap::Typed));
+    let pos = match (k / 15) % 3 {
+        0 => 0,
+        1 => me.props.len() / 2,
+        _ => me.props.len(),
+    };
+    me.props.insert(pos, Prop::new("bad", M::Str(FAIL_PARTIAL.into()), cap));
+    me.directed = Some(format!("failing:{}:{}:{}", cap.name(), ["first", "middle", "last"][((k / 15) % 3) as usize], if (k / 45) % 5 == 4 { "hole" } else { "no-hole" }));
+    // keep only holes that still bind plain values, then maybe bind the failing one
+    let keep: Vec<bool> = me.parts.iter().map(|(hole, key)| !*hole || me.first(key).and_then(|p| p.plain_text()).is_some()).collect();
+    let mut it = keep.into_iter();
+    me.parts.retain(|_| it.next().unwrap());
+    if (k / 45) % 5 == 4 {
+        me.parts.push((false, " failing ".into()));
+        me.parts.push((true, "bad".into()));
+    }
+    me
 }
